@@ -31,8 +31,8 @@ func Unmarshal(data []byte, v any) error {
 // In real world, it is often empty, but the API should allow you to get it when ever you want.
 func (d *Decoder) Decode(v any) (string, error) {
 	val := reflect.ValueOf(v)
-	if val.Kind() != reflect.Ptr {
-		return "", errors.New("nbt: non-pointer passed to Decode")
+	if val.Kind() != reflect.Ptr || val.IsNil() {
+		return "", errors.New("nbt: non-pointer or nil pointer passed to Decode")
 	}
 	// start read NBT
 	var tagType byte
